@@ -76,7 +76,12 @@ func routingHandler(methods map[string]method) jsonrpc2.Handler {
 		if !ok {
 			return nil, errMethodNotFound
 		}
-		return fn(context.WithValue(ctx, connKey{}, conn), *req.Params)
+		// Params is nil when the request has no "params" member.
+		var params json.RawMessage
+		if req.Params != nil {
+			params = *req.Params
+		}
+		return fn(context.WithValue(ctx, connKey{}, conn), params)
 	})
 }
 
